@@ -14,7 +14,7 @@ LEVEL = "exploration"
 RULE = ("A real Zeroconf registers a service (v4/v6/dual/multi-address, custom TTLs, both socket layouts, own-multicast loop-back "
         "delay 0/1/50 ms) while (a) nothing conflicts, (b) a conflicting PTR for the same type+instance name is injected at an "
         "offset on a 5 ms grid over [-50,400] ms around the three probe instants (plus the instants +-1 ms), with 0..4 "
-        "pre-populated '-N' names, rename allowed or not, or (c) a second real instance owns the name and answers the probe over a "
+        "pre-populated '-N' names, rename allowed or not, plus 0..3 unrelated (non-conflicting) responses heard during the probe phase, or (c) a second real instance owns the name and answers the probe over a "
         "link with 0..150 ms one-way delay. The host's wire trace is decoded by the independent parser: three probes 175 ms apart "
         "(QU PTR question for the type, proposed PTR in the authority section, nothing else), no record of the service multicast "
         "before the last probe, three complete announcements 225 ms apart (PTR, SRV, TXT, all A/AAAA, NSEC when a family is "
@@ -47,6 +47,9 @@ def gen_scenario(rng: random.Random) -> Dict[str, Any]:
     s.server = "host-h.local."
     sc: Dict[str, Any] = {"variant": variant, "svc": s, "layout": rng.choice(["single", "split"]), "self_delay": rng.choice([0.0, 0.0, 1.0, 50.0]),
                           "allow": rng.random() < 0.5, "chain": 0, "delta": None}
+    # unrelated traffic heard while probing: other instances of the same type, other types, address records (new cache
+    # entries wake the probing coroutine early; none of them conflicts with the proposed name)
+    sc["noise"] = sorted(float(rng.choice([5, 30, 60, 100, 120, 170, 180, 200, 300, 340, 360])) for _ in range(rng.choice([0, 0, 1, 2, 3])))
     if variant == "inject":
         if rng.random() < 0.7:
             sc["delta"] = float(rng.randrange(-10, 81) * 5)
@@ -113,6 +116,10 @@ def run_scenario(res: Result, seed: int) -> None:
                     sim.net.inject_now(host, data, ("10.0.0.9", 5353))   # just before registering (|delta| irrelevant once cached)
                 else:
                     sim.net.inject(host, data, ("10.0.0.9", 5353), delay_ms=delta)
+            for k, noff in enumerate(sc["noise"]):
+                other = "neighbour%d-%d.%s" % (k, rng.randrange(1000), s.type if k % 2 == 0 else "_other._tcp.local.")
+                ndata = R.build_response([(("PTR", other.split(".", 1)[1], (other,)), 4500, False), (("A", "nb%d.local." % k, (bytes([10, 9, 9, k + 1]),)), 120, True)], id_=300 + k)
+                sim.net.inject(host, ndata, ("10.0.0.4%d" % k, 5353), delay_ms=noff)
             try:
                 task = await zc.async_register_service(info, allow_name_change=sc["allow"])
                 out["result"] = "registered"
@@ -277,7 +284,8 @@ def analyse(res: Result, sim: simnet.Sim, sc: Dict[str, Any], out: Dict[str, Any
                 if r.ttl > 0 and ((ident[0] == "PTR" and ident[2][0] in bad_names) or (ident[0] in ("SRV", "TXT") and ident[1] in bad_names)):
                     viol("c09.conflict", "conflicting_name_sent", "host sent %r (ttl %d) for a name owned by someone else at +%.0f ms" % (ident, r.ttl, e["t"] - P0), window=window)
     fam = ("dual" if s.addrs4 and s.addrs6 else ("v4" if s.addrs4 else "v6")) + ("-multi" if len(s.addrs4) + len(s.addrs6) > 2 else "")
-    res.cls(sc["variant"], window, "rename" if sc["allow"] else "strict", "chain=%d" % sc["chain"], fam, sc["layout"], result, "selfdelay=%g" % sc["self_delay"])
+    res.cls(sc["variant"], window, "rename" if sc["allow"] else "strict", "chain=%d" % sc["chain"], fam, sc["layout"], result, "selfdelay=%g" % sc["self_delay"],
+            "noise=%d" % len(sc["noise"]))
 
 
 def window_of(d: float) -> str:
